@@ -65,7 +65,7 @@ MODULES = ["Spydr.Verilog.Model", "Spydr.Verilog.ModelElab", "Spydr.Verilog.Mode
            "Spydr.Verilog.RoundTripAsgA", "Spydr.Verilog.RoundTripAsgB", "Spydr.Verilog.RoundTripAsgC",
            "Spydr.Verilog.RoundTripAsgD", "Spydr.Verilog.RoundTripAsgE", "Spydr.Verilog.RoundTripAsgF",
            "Spydr.Verilog.RoundTripAsgG", "Spydr.Verilog.RoundTripAsgH", "Spydr.Verilog.RoundTripAsgI",
-           "Spydr.Verilog.RoundTripAsgP", "Spydr.Verilog.RoundTripAsgU",
+           "Spydr.Verilog.RoundTripAsgP", "Spydr.Verilog.RoundTripAsgU", "Spydr.Verilog.RoundTripAsgV",
            "Spydr.Verilog.WFWiresA", "Spydr.Verilog.WFWiresB", "Spydr.Verilog.WFWiresC",
            "Spydr.Verilog.WFBase", "Spydr.Verilog.WFPort", "Spydr.Verilog.WFEval", "Spydr.Verilog.WFHeader",
            "Spydr.Verilog.WFDecl", "Spydr.Verilog.WFInst", "Spydr.Verilog.WFDesign", "Spydr.Verilog.WFStruct"]
@@ -109,7 +109,8 @@ THEOREMS = {
             "Spydr.Verilog.Elab.asgStepR_run", "Spydr.Verilog.Elab.asg_foldG", "Spydr.Verilog.Elab.late_prefix", "Spydr.Verilog.Elab.elabModule_lateWA", "Spydr.Verilog.Elab.top_prefix", "Spydr.Verilog.Elab.elabModule_wtopA", "Spydr.Verilog.Elab.late_foldA", "Spydr.Verilog.Elab.elabDesign_hierA", "Spydr.Verilog.Elab.exHierA_builds", "Spydr.Verilog.Elab.asg_view_step", "Spydr.Verilog.Elab.asgs_view", "Spydr.Verilog.Elab.view_coreA", "Spydr.Verilog.Elab.buildLateWA_view", "Spydr.Verilog.Elab.hier_foldA", "Spydr.Verilog.Elab.c04_view_hierA", "Spydr.Verilog.Elab.c04_ast_hierA", "Spydr.Verilog.Elab.exNetHA_frag", "Spydr.Verilog.Elab.exNetHA_has_assigns",
             "Spydr.Verilog.Elab.bodyGo_asg", "Spydr.Verilog.Elab.topGo_mod", "Spydr.Verilog.Elab.parse_hierA", "Spydr.Verilog.Elab.assigns_foldA", "Spydr.Verilog.Elab.instances_foldA", "Spydr.Verilog.Elab.moduleText_topA", "Spydr.Verilog.Elab.anys_textA", "Spydr.Verilog.Elab.composeV_text_hierA", "Spydr.Verilog.Elab.chars_asgP", "Spydr.Verilog.Elab.toks_asgP", "Spydr.Verilog.Elab.chars_modPA", "Spydr.Verilog.Elab.toks_modPA", "Spydr.Verilog.Elab.chars_filePHA", "Spydr.Verilog.Elab.toks_filePHA", "Spydr.Verilog.Elab.c04_text_hierA", "Spydr.Verilog.Elab.exNetHA_struct", "Spydr.Verilog.Elab.exNetHA_roundtrip",
             "Spydr.Verilog.Elab.elabModule_eq_tailGP", "Spydr.Verilog.Elab.buildW3_params", "Spydr.Verilog.Elab.foldInst_params", "Spydr.Verilog.Elab.foldAsg_params", "Spydr.Verilog.Elab.headerParamsGo_toks", "Spydr.Verilog.Elab.headerParams_toks", "Spydr.Verilog.Elab.moduleP_toksP", "Spydr.Verilog.Elab.params_text", "Spydr.Verilog.Elab.chars_mparamP", "Spydr.Verilog.Elab.toks_mparamP",
-            "Spydr.Verilog.Elab.astLeafU_iface", "Spydr.Verilog.Elab.moduleText_leafU", "Spydr.Verilog.Elab.chars_leafPU", "Spydr.Verilog.Elab.toks_leafPU", "Spydr.Verilog.Elab.preprocess_filter", "Spydr.Verilog.Elab.leafToksU_filter", "Spydr.Verilog.Elab.toks_filePHA", "Spydr.Verilog.Elab.parseV_dropC"],
+            "Spydr.Verilog.Elab.astLeafU_iface", "Spydr.Verilog.Elab.moduleText_leafU", "Spydr.Verilog.Elab.chars_leafPU", "Spydr.Verilog.Elab.toks_leafPU", "Spydr.Verilog.Elab.preprocess_filter", "Spydr.Verilog.Elab.leafToksU_filter", "Spydr.Verilog.Elab.toks_filePHA", "Spydr.Verilog.Elab.parseV_dropC",
+            "Spydr.Verilog.Elab.elabModule_prim", "Spydr.Verilog.Elab.elabModule_leafX", "Spydr.Verilog.Elab.buildLeafX_facts", "Spydr.Verilog.Elab.moduleP_leafX", "Spydr.Verilog.Elab.topGo_leafX", "Spydr.Verilog.Elab.moduleText_leafX", "Spydr.Verilog.Elab.chars_leafPX", "Spydr.Verilog.Elab.toks_leafPX", "Spydr.Verilog.Elab.leafToksXU_filter"],
 }
 
 
